@@ -68,7 +68,22 @@ def witness_F12():
     return got != [50., 60., 70.]
 
 
-WITNESS = {'F11': witness_F11, 'F12': witness_F12}
+def witness_F14():
+    import pykoop
+    X = np.array([[1., 2., 3.], [2., 1., 1.], [0.5, 2., 2.]])     # x0, x1, u0
+    kp = pykoop.KoopmanPipeline(lifting_functions=[
+        ('b', pykoop.BilinearInputLiftingFn()), ('p', pykoop.PolynomialLiftingFn(order=2))])
+    kp.fit_transformers(X, n_inputs=1)
+    names = list(kp.get_feature_names_out())
+    Xt = kp.transform(X)
+    if 'x1*u0^2' not in names:
+        return False
+    j = names.index('x1*u0^2')
+    # conventional reading x1*(u0^2) = 18 at the first sample; the column holds (x1*u0)^2 = 36
+    return abs(Xt[0, j] - 36.0) < 1e-9 and abs(X[0, 1] * X[0, 2] ** 2 - Xt[0, j]) > 1.0
+
+
+WITNESS = {'F11': witness_F11, 'F12': witness_F12, 'F14': witness_F14}
 
 
 def report_known(res, pid):
